@@ -173,12 +173,17 @@ inductive RResS where
   deriving Repr, DecidableEq
 
 /-- `read_record` with the bookkeeping of `has_skipped_data`; at end of file the cursor equals
-the file length exactly when no bytes remain after the last complete fragment or trailer -/
+the file length exactly when no bytes remain after the last complete fragment or (completely
+present) trailer -/
 def readRecordLoopS (c : Cfg) : Nat → Bytes → Nat → Bytes → Bool → Bool → RResS
   | 0, _, _, _, _, _ => .eof false
   | fuel+1, rest, boff, acc, frag, skipped =>
     match readPhysical c rest boff with
-    | .eof => .eof (rest.isEmpty && !frag && !skipped)
+    | .eof =>
+      -- the cursor equals the file length iff nothing is left after a fully present trailer
+      let t := c.B - boff
+      let leftover := if t < H && 0 < t && decide (t ≤ rest.length) then rest.drop t else rest
+      .eof (leftover.isEmpty && !frag && !skipped)
     | .bad rest' boff' => readRecordLoopS c fuel rest' boff' [] false true
     | .ok ty data rest' boff' =>
       if ty = TFull then .record data rest' boff' (skipped || frag)
